@@ -70,6 +70,14 @@ def make_case(rng, i):
         if rng.random() < 0.6:
             d["rate_modifier"] = {str(rng.choice([1, 2, 5])): rng.choice(["1.5e-9", "2.0*zeta", "nH*1e-20 + 1e-12"])}
             d["ode_modifier"] = {"H2": {"factors": [rng.choice(["-1.0e-3", "-zeta + 1e-18", "2.5e-4*nH"])], "reactants": [rng.choice([["H"], ["H", "H"], ["H2", "e-"]])]}}
+            if rng.random() < 0.6:
+                # several terms for one species and terms for further species (the bundled cloud example's H2 / H pair)
+                d["ode_modifier"]["H2"]["factors"].append(rng.choice(["-3.0e-11", "-nH*1e-15"]))
+                d["ode_modifier"]["H2"]["reactants"].append(["H2"])
+                d["ode_modifier"]["H"] = {"factors": [rng.choice(["2.0e-3", "6.0e-11 + zeta"])], "reactants": [rng.choice([["H2"], ["H", "H2"]])]}
+                if rng.random() < 0.5:
+                    d["ode_modifier"]["He+"] = {"factors": ["-1.0e-9*nH"], "reactants": [["He+", "e-"]]}
+            d["ode_modifier_repeated_option"] = rng.random() < 0.5
     elif style == "uclchem_upper":
         lines["net.ucl"] = ["H,HE+,NAN,HE,H+,NAN,NAN,1.2e-15,0.25,0.0,10,41000", "MG,H+,NAN,MG+,H,NAN,NAN,1.1e-9,0.0,0.0,10,41000", "SIO,HE+,NAN,SI+,O,HE,NAN,8.6e-10,-0.5,0.0,10,41000",
                             "H2,CRP,NAN,H,H,NAN,NAN,1.3e-18,0.0,0.0,10,41000", "HCL,E-,NAN,H,CL,NAN,NAN,3.0e-7,-0.5,0.0,10,41000", "H,H,NAN,H2,NAN,NAN,NAN,1e-17,0.5,0.0,10,41000",
@@ -133,7 +141,8 @@ def make_case(rng, i):
     if d.get("rate_modifier"):
         multi["rate-modifier"] = [", ".join(f"{k}: {v}" for k, v in d["rate_modifier"].items())]
     if d.get("ode_modifier"):
-        multi["ode-modifier"] = [";".join(f"{sp}:{f},[{' '.join(dep)}]" for sp, m in d["ode_modifier"].items() for f, dep in zip(m["factors"], m["reactants"]))]
+        terms = [f"{sp}:{f},[{' '.join(dep)}]" for sp, m in d["ode_modifier"].items() for f, dep in zip(m["factors"], m["reactants"])]
+        multi["ode-modifier"] = terms if d.get("ode_modifier_repeated_option") else [";".join(terms)]
     return {"kind": "options", "desc": d, "lines": lines, "options": o, "multi": multi, "style": style}
 
 
